@@ -921,7 +921,7 @@ impl Entry {
         new_root.splice_children(0..new_head_len, old_head);
         let tail_pos = new_root.children_with_tokens().count() - new_tail_len;
         new_root.splice_children(
-            tail_pos - new_tail_len..tail_pos,
+            tail_pos..tail_pos + new_tail_len,
             old_tail.into_iter().rev(),
         );
         let index = old_root.index();
